@@ -299,38 +299,42 @@ class RetryExecutor(CanCustomizeBind, Executor):
 
     def _submit_now(self, job):
         # Pop job since we'll replace it.
-        # We need to hold the lock for the entire duration so that other
-        # threads won't see _jobs between our removal and re-add of the job
+        # We need to hold the future's lock for the entire duration, because
+        # someone could call cancel after the done() check and before we submit;
+        # cancel is also the only other party looking for this job, so nobody
+        # sees _jobs between our removal and re-add of it.
+        #
+        # The executor's lock is not held while calling the delegate: its submit()
+        # may block (ThrottleExecutor with block=True) or run the callable right
+        # away (SyncExecutor), and the completion callbacks of other jobs, which
+        # need that lock, would be stuck behind it - possibly forever.
         with job.future._me_lock:
-            with self._lock:
-                self._pop_job(job)
+            self._pop_job(job)
 
-                # We need the future's lock now too, because someone could
-                # call cancel after this check and before we submit.
-                if job.future.done():
-                    self._log.debug(
-                        "future done %s - not submitting to delegate", job.future
-                    )
-                    return
-
-                if job.attempt != 0:
-                    metrics.RETRY_TOTAL.labels(executor=self._name).inc()
-
-                delegate_future = self._delegate.submit(job.fn, *job.args, **job.kwargs)
-                job.future.delegate_future = delegate_future
-
-                new_job = RetryJob(
-                    job.policy,
-                    delegate_future,
-                    job.future,
-                    job.attempt + 1,
-                    None,
-                    job.fn,
-                    job.args,
-                    job.kwargs,
+            if job.future.done():
+                self._log.debug(
+                    "future done %s - not submitting to delegate", job.future
                 )
-                self._append_job(new_job)
-                self._log.debug("Submitted: %s", new_job)
+                return
+
+            if job.attempt != 0:
+                metrics.RETRY_TOTAL.labels(executor=self._name).inc()
+
+            delegate_future = self._delegate.submit(job.fn, *job.args, **job.kwargs)
+            job.future.delegate_future = delegate_future
+
+            new_job = RetryJob(
+                job.policy,
+                delegate_future,
+                job.future,
+                job.attempt + 1,
+                None,
+                job.fn,
+                job.args,
+                job.kwargs,
+            )
+            self._append_job(new_job)
+            self._log.debug("Submitted: %s", new_job)
 
         delegate_future.add_done_callback(self._delegate_callback)
         self._wake_thread()
